@@ -176,14 +176,21 @@ func (w *Worktree) PullContext(ctx context.Context, o *PullOptions) error {
 		return err
 	}
 
+	// Refuse before HEAD is moved, so a refused pull changes nothing.
+	ro := &ResetOptions{
+		Mode:   MergeReset,
+		Commit: ref.Hash(),
+	}
+	if err := w.resetRefusals(ro); err != nil {
+		return err
+	}
+	ro.refusalsChecked = true
+
 	if err := w.updateHEAD(ref.Hash()); err != nil {
 		return err
 	}
 
-	if err := w.Reset(&ResetOptions{
-		Mode:   MergeReset,
-		Commit: ref.Hash(),
-	}); err != nil {
+	if err := w.Reset(ro); err != nil {
 		return err
 	}
 
@@ -220,7 +227,7 @@ func (w *Worktree) Checkout(opts *CheckoutOptions) error {
 	}
 
 	if opts.Create {
-		if err := w.createBranch(opts); err != nil {
+		if err := w.checkNewBranch(opts); err != nil {
 			return err
 		}
 	}
@@ -251,6 +258,20 @@ func (w *Worktree) Checkout(opts *CheckoutOptions) error {
 		}
 	}
 
+	// Everything that can refuse the checkout is evaluated before the
+	// branch is created or HEAD is moved, so a refused checkout changes
+	// nothing.
+	if err := w.resetRefusals(ro); err != nil {
+		return err
+	}
+	ro.refusalsChecked = true
+
+	if opts.Create {
+		if err := w.createBranch(opts); err != nil {
+			return err
+		}
+	}
+
 	if !opts.Hash.IsZero() && !opts.Create {
 		err = w.setHEADToCommit(opts.Hash)
 	} else {
@@ -264,7 +285,9 @@ func (w *Worktree) Checkout(opts *CheckoutOptions) error {
 	return w.Reset(ro)
 }
 
-func (w *Worktree) createBranch(opts *CheckoutOptions) error {
+// checkNewBranch verifies that the branch to create is valid and does not
+// exist yet, and resolves the commit it starts from. It changes nothing.
+func (w *Worktree) checkNewBranch(opts *CheckoutOptions) error {
 	if err := opts.Branch.Validate(); err != nil {
 		return err
 	}
@@ -287,6 +310,11 @@ func (w *Worktree) createBranch(opts *CheckoutOptions) error {
 		opts.Hash = ref.Hash()
 	}
 
+	return nil
+}
+
+// createBranch stores the branch checked by checkNewBranch.
+func (w *Worktree) createBranch(opts *CheckoutOptions) error {
 	return w.r.Storer.SetReference(
 		plumbing.NewHashReference(opts.Branch, opts.Hash),
 	)
@@ -343,15 +371,9 @@ func (w *Worktree) setHEADToBranch(branch plumbing.ReferenceName, commit plumbin
 	return w.r.Storer.SetReference(head)
 }
 
-// Reset the worktree to a specified state.
-func (w *Worktree) Reset(opts *ResetOptions) error {
-	if trace.Performance.Enabled() {
-		start := time.Now()
-		defer func() {
-			trace.Performance.Printf("performance: %.9f s: reset_worktree", time.Since(start).Seconds())
-		}()
-	}
-
+// resetRefusals evaluates every condition under which Reset refuses to
+// proceed, without changing references, index or worktree.
+func (w *Worktree) resetRefusals(opts *ResetOptions) error {
 	if err := opts.Validate(w.r); err != nil {
 		return err
 	}
@@ -373,7 +395,7 @@ func (w *Worktree) Reset(opts *ResetOptions) error {
 	}
 
 	if opts.Mode == SoftReset {
-		return w.setHEADCommit(opts.Commit)
+		return nil
 	}
 
 	t, err := w.r.getTreeFromCommitHash(opts.Commit)
@@ -385,6 +407,52 @@ func (w *Worktree) Reset(opts *ResetOptions) error {
 		if !treeContainsDirs(t, opts.SparseDirs) {
 			return ErrSparseResetDirectoryNotFound
 		}
+	}
+
+	if opts.Mode == KeepReset {
+		prevTree := opts.fromTree
+		if prevTree == nil {
+			prevTree, err = w.headTree()
+			if err != nil {
+				return err
+			}
+		}
+
+		if err := w.checkKeepResetConflicts(prevTree, t, opts.SparseDirs, opts.Files); err != nil {
+			return err
+		}
+	}
+
+	return nil
+}
+
+// Reset the worktree to a specified state.
+func (w *Worktree) Reset(opts *ResetOptions) error {
+	if trace.Performance.Enabled() {
+		start := time.Now()
+		defer func() {
+			trace.Performance.Printf("performance: %.9f s: reset_worktree", time.Since(start).Seconds())
+		}()
+	}
+
+	if !opts.refusalsChecked {
+		if err := w.resetRefusals(opts); err != nil {
+			return err
+		}
+	}
+
+	cfg, err := w.r.Config()
+	if err != nil {
+		return err
+	}
+
+	if opts.Mode == SoftReset {
+		return w.setHEADCommit(opts.Commit)
+	}
+
+	t, err := w.r.getTreeFromCommitHash(opts.Commit)
+	if err != nil {
+		return err
 	}
 
 	// For HardReset and KeepReset, capture the current HEAD tree before
@@ -405,12 +473,6 @@ func (w *Worktree) Reset(opts *ResetOptions) error {
 			if err != nil {
 				return err
 			}
-		}
-	}
-
-	if opts.Mode == KeepReset {
-		if err := w.checkKeepResetConflicts(prevTree, t, opts.SparseDirs, opts.Files); err != nil {
-			return err
 		}
 	}
 
